@@ -73,6 +73,23 @@ def rule_gate(ctx, px):
     if len(gen_classes) < 3:
         raise AnalysisError("anchor missing: generator classes")
 
+    # a private method that passes its own (path, allow_overwrite) parameters through the gate before anything else can happen is the
+    # gate under another name: {method name: (index of the path argument, index of the allow_overwrite argument)}
+    wrappers = {}
+    for cls_ in gen_classes:
+        for g_ in cls_.methods.values():
+            if g_.name == "_handle_overwrite" or not g_.name.startswith("_"):
+                continue
+            ps_ = [a.arg for a in g_.node.args.args][1:]
+            for st_ in g_.node.body:      # top level only: unconditional
+                if isinstance(st_, ast.Expr) and isinstance(st_.value, ast.Constant):
+                    continue
+                c_ = st_.value if isinstance(st_, ast.Expr) else None
+                if isinstance(c_, ast.Call) and isinstance(c_.func, ast.Attribute) and c_.func.attr == "_handle_overwrite" and len(c_.args) >= 2 \
+                        and isinstance(c_.args[0], ast.Name) and isinstance(c_.args[1], ast.Name) and c_.args[0].id in ps_ and c_.args[1].id in ps_:
+                    wrappers[g_.name] = (ps_.index(c_.args[0].id), ps_.index(c_.args[1].id))
+                break       # the gate must be the first thing the wrapper does
+
     def gate_dominates(f, call, path_root):
         pm = pyfront.parent_map(f.node)
         st = pyfront.enclosing_stmt(call, pm)
@@ -89,6 +106,10 @@ def rule_gate(ctx, px):
                 if isinstance(g.func, ast.Attribute) and g.func.attr == "_handle_overwrite" and len(g.args) >= 2:
                     if _path_root(g.args[0]) == path_root and ast.unparse(g.args[1]) == "allow_overwrite":
                         return True, "gate on the same path precedes on every path"
+                if isinstance(g.func, ast.Attribute) and g.func.attr in wrappers and isinstance(g.func.value, ast.Name) and g.func.value.id in ("self", "cls"):
+                    ip_, ia_ = wrappers[g.func.attr]
+                    if max(ip_, ia_) < len(g.args) and _path_root(g.args[ip_]) == path_root and ast.unparse(g.args[ia_]) == "allow_overwrite":
+                        return True, f"gate (through {g.func.attr}) on the same path precedes on every path"
         return False, f"no dominating _handle_overwrite({path_root}, allow_overwrite)"
 
     for cls in gen_classes:
@@ -388,6 +409,22 @@ def rule_mode(ctx, px):
         # the file post-processor loop: `for pp in <list>: <path> = pp(<path>)` (the loop variable is applied as a function)
         loops = [n for n in ast.walk(g.node) if isinstance(n, ast.For) and isinstance(n.target, ast.Name) and isinstance(n.iter, ast.Name)
                  and any(isinstance(c, ast.Call) and isinstance(c.func, ast.Name) and c.func.id == n.target.id for c in ast.walk(n))]
+        body_loop = None
+        if not loops and g.cls is not None:
+            # the loop may live in a private method that is handed the path and the list: its call stands where the loop stood
+            for c_ in ast.walk(g.node):
+                if isinstance(c_, ast.Call) and isinstance(c_.func, ast.Attribute) and isinstance(c_.func.value, ast.Name) and c_.func.value.id in ("self", "cls") \
+                        and c_.func.attr.startswith("_"):
+                    h_ = g.cls.mro_lookup(c_.func.attr)
+                    if h_ is None:
+                        continue
+                    hl_ = [n for n in ast.walk(h_.node) if isinstance(n, ast.For) and isinstance(n.target, ast.Name) and isinstance(n.iter, ast.Name)
+                           and any(isinstance(c2, ast.Call) and isinstance(c2.func, ast.Name) and c2.func.id == n.target.id for c2 in ast.walk(n))]
+                    top_ = [st_ for st_ in h_.node.body if not (isinstance(st_, ast.Expr) and isinstance(st_.value, ast.Constant))]
+                    if len(hl_) == 1 and all(st_ is hl_[0] or isinstance(st_, (ast.Return, ast.Assign, ast.AnnAssign)) for st_ in top_) \
+                            and not any(x_ for x_ in effects.fs_effects(h_.module, h_.node)):
+                        loops = [pyfront.enclosing_stmt(c_, pyfront.parent_map(g.node))]
+                        body_loop = hl_[0]
         if len(loops) != 1:
             raise AnalysisError(f"anchor missing: loop applying the file post-processors in {qual} (found {len(loops)})")
         loop = loops[0]
@@ -435,10 +472,11 @@ def rule_mode(ctx, px):
             ctx.ob(R, g.module.rel, f"{g.short} :: {w} precedes the file post-processor loop", before,
                    "" if before else "content is written after the file post-processors ran", c.lineno)
         # loop body calls the processor on the path and no `break`
-        body_calls = [c for c in ast.walk(loop) if isinstance(c, ast.Call) and isinstance(c.func, ast.Name)
-                      and c.func.id == ast.unparse(loop.target)]
-        has_break = any(isinstance(x, (ast.Break, ast.Continue, ast.Return)) for x in ast.walk(loop))
-        ok = len(body_calls) == 1 and not has_break and len(loop.body) == 1
+        bl = body_loop if body_loop is not None else loop
+        body_calls = [c for c in ast.walk(bl) if isinstance(c, ast.Call) and isinstance(c.func, ast.Name)
+                      and c.func.id == ast.unparse(bl.target)]
+        has_break = any(isinstance(x, (ast.Break, ast.Continue, ast.Return)) for x in ast.walk(bl))
+        ok = len(body_calls) == 1 and not has_break and len(bl.body) == 1
         ctx.ob(R, g.module.rel, f"{g.short} :: every file post-processor is invoked", ok,
                "" if ok else "loop skips or filters processors", loop.lineno)
     # classification of post-processors covers the whole list: for pp in self._post_processors -> line/file/else raise
